@@ -31,6 +31,9 @@ type codecCase struct {
 	Set    []int      `json:"set,omitempty"`
 	Value  string     `json:"value,omitempty"`
 	Tags   []string   `json:"tags,omitempty"`
+	// Enc / Dec: which spelling of the strict encoder/decoder to use (default .encode / .decode)
+	Enc string `json:"enc,omitempty"`
+	Dec string `json:"dec,omitempty"`
 }
 
 var docStrings = []string{"", "a", "x y", "é", "😀", "\"q\"", "back\\slash", "line\nbreak", "tab\t", "null", "true", "1", "1.5", "-", ": ", "#c", "[", "{a}", " lead", "trail ", "'", " ", " ", "\x01"}
@@ -157,9 +160,16 @@ func genC13(t *rapid.T) (codecCase, bool, []string) {
 			b, _ := json.Marshal(doc)
 			c.Doc = string(b)
 		}
+		// configured codecs whose configuration leaves strictness at its default (or states it)
+		c.Enc = pick(t, "enc", ".encode", ".encode", ".encoder(())", ".encoder((indent: '  '))", ".encoder((escapeHTML: false))", ".encoder((strict: true))", ".encode_indent")
+		c.Dec = pick(t, "dec", ".decode", ".decode", ".decoder(())", ".decoder((strict: true))")
+		classes = append(classes, "enc:"+c.Enc, "dec:"+c.Dec)
 		nt = docDepth(doc) >= 2 || strings.Contains(c.Doc, "null") || strings.Contains(c.Doc, `""`) || strings.Contains(c.Doc, "[]") || strings.Contains(c.Doc, "{}")
 	case "yaml":
 		doc := genDoc(t, 3)
+		c.Enc = pick(t, "enc", ".encode", ".encode", ".encoder(())", ".encoder((strict: true))")
+		c.Dec = pick(t, "dec", ".decode", ".decode", ".decoder(())", ".decoder((strict: true))")
+		classes = append(classes, "enc:"+c.Enc, "dec:"+c.Dec)
 		b, err := yaml.Marshal(doc)
 		if err != nil {
 			b = []byte("null\n")
@@ -307,8 +317,15 @@ func checkCodecCase(c codecCase) *Failure {
 			return &Failure{Property: "C13", Check: "C13/codec", Detail: "generator produced invalid YAML: " + err.Error()}
 		}
 		ns := "//encoding." + c.Codec
+		enc, dec := ns+".encode", ns+".decode"
+		if c.Enc != "" {
+			enc = ns + c.Enc
+		}
+		if c.Dec != "" {
+			dec = ns + c.Dec
+		}
 		doc := map[string]rel.Value{"d": rel.NewString([]rune(c.Doc))}
-		out := obs.EvalScope(ns+".encode("+ns+".decode(d))", doc)
+		out := obs.EvalScope(enc+"("+dec+"(d))", doc)
 		if out.Kind != "value" {
 			return fail("", "%s document %q: encode(decode(d)) must give a document; observed %s", c.Codec, c.Doc, out)
 		}
@@ -329,7 +346,7 @@ func checkCodecCase(c codecCase) *Failure {
 		if !jsonEqual(want, got) {
 			return fail("", "%s document %q re-encoded as %q: content differs\n  original: %#v\n  re-encoded: %#v", c.Codec, c.Doc, text, normJSON(want), normJSON(got))
 		}
-		idem := obs.EvalScope("let x = "+ns+".decode(d); "+ns+".decode("+ns+".encode(x)) = x", doc)
+		idem := obs.EvalScope("let x = "+dec+"(d); "+dec+"("+enc+"(x)) = x", doc)
 		if b, isBool := boolOfOutcome(idem); !isBool || !b {
 			return fail("", "%s document %q: decode(encode(decode(d))) = decode(d) does not hold: %s", c.Codec, c.Doc, idem)
 		}
